@@ -629,8 +629,11 @@ def check_db_cases(res: Result, cases: list[dict[str, Any]], in_scope: bool, twi
         res.sample({"case": "db", "protocol": db_lines(case)[:6], "impl_last": run.lines[-1] if run.lines else None, "model_last": model[-1]})
         bad = db_oracle(case, run, twin=(ci % twin_every == 0)) if in_scope else []
         for key, msg in bad:
+            res.count("db:oracle-fail:" + key)
+            if any(v.key == key and v.kind == "oracle" for v in res.violations):
+                continue
             small = shrink_db(case, key)
-            res.violate("oracle", key, msg, {"case": small, "impl_lines": DbRun(small).run().lines})
+            res.violate("oracle", key, msg, {"case": small, "impl_lines": DbRun(small).run().lines, "found_on": db_lines(case)})
         dis = compare_db(case, run, model)
         shutil.rmtree(run.dir, ignore_errors=True)
         if dis is None:
@@ -930,7 +933,8 @@ def check_ds_cases(res: Result, cases) -> None:
             res.nontrivial(ds_line(case))
         bad = ds_oracle(case, obs)
         for key, msg in bad:
-            res.violate("oracle", key, msg, {"case": shrink_ds(case, key)})
+            if not any(v.key == key and v.kind == "oracle" for v in res.violations):
+                res.violate("oracle", key, msg, {"case": shrink_ds(case, key)})
         if not case["exact"]:
             continue
         impl = f"hdf={obs.get('hdf')} csv={obs.get('csv')}"
@@ -1148,7 +1152,8 @@ def check_pb_cases(res: Result, cases) -> None:
         if "orig" in obs and "back" in obs and obs["orig"]["extra"] != obs["back"]["extra"]:
             res.count("pb:info-differentiation-attributes-differ(not in the property statement)")
         for key, msg in pb_oracle(case, obs):
-            res.violate("oracle", key, msg, {"case": shrink_pb(case, key)})
+            if not any(v.key == key and v.kind == "oracle" for v in res.violations):
+                res.violate("oracle", key, msg, {"case": shrink_pb(case, key)})
 
 
 def shrink_pb(case, key):
@@ -1274,6 +1279,9 @@ def check_cache_cases(res: Result, cases) -> None:
         if len(case["ops"]) >= 4:
             res.nontrivial("cache:" + json.dumps(case, sort_keys=True))
         for key, msg in obs["bad"]:
+            if any(v.key == key and v.kind == "oracle" for v in res.violations):
+                continue
+
             def fails(ops, key=key):
                 return any(k == key for k, _ in cache_observe({**case, "ops": ops})["bad"])
             small = {**case, "ops": common.shrink_list(case["ops"], fails, budget=40)}
